@@ -463,6 +463,34 @@ def run(ctx):
             ctx.violation('chain-modules:ground-truth', 'runfiles 2 %s %s %s %s %s' % (
                 progs.hx('主.zn'), cps(msrc), progs.hx(progs.MODULE_NAME + '.zn'), cps(dsrc), progs.hx('主.zn')),
                 g_out, 'expected chain ' + '>'.join(exp))
+    # ---- hand-written module chains: a module whose FIRST physical line is the one that fails, imports or calls (a frame whose only
+    # statement so far stands on line 1 is started like any other) -----------------------------------------------------------------
+    hand_mods = [
+        ({'主.zn': '注：头\n导入“乙”\n（显示：1）\n', '乙.zn': '（显示：1/0）\n'}, 'main:2>%s:1' % progs.hx('乙')),
+        ({'主.zn': '注：头\n\n导入“乙”\n', '乙.zn': '导入“丙”\n（显示：2）\n', '丙.zn': '注：一\n注：二\n（显示：1/0）\n'},
+         'main:3>%s:1>%s:3' % (progs.hx('乙'), progs.hx('丙'))),
+        ({'主.zn': '导入“乙”\n', '乙.zn': '（显示：（算：0））\n如何算？\n    输入N\n    输出 1/N\n'},
+         'main:1>%s:1>%s:4' % (progs.hx('乙'), progs.hx('乙'))),
+        ({'主.zn': '导入“乙”\n（显示：（算：0））\n', '乙.zn': '如何算？\n    输入N\n    输出 1/N\n'}, 'main:2>%s:3' % progs.hx('乙')),
+        ({'主.zn': '（显示：1/0）\n'}, 'main:1'),
+        ({'主.zn': '导入“乙”\n', '乙.zn': '抛出异常：“首行”！\n'}, 'main:1>%s:1' % progs.hx('乙')),
+    ]
+    hm_lines = []
+    for files, _exp in hand_mods:
+        parts = []
+        for rel, src in files.items():
+            parts += [progs.hx(rel), cps(src)]
+        hm_lines.append('runfiles %d %s %s' % (len(files), ' '.join(parts), progs.hx('主.zn')))
+    hm_go = ctx.run_go(hm_lines)
+    for line, g_out, (_files, exp) in zip(hm_lines, hm_go, hand_mods):
+        ctx.evaluations += 1
+        f = g_out.split(' ')
+        got = f[3] if g_out.startswith('err') and len(f) > 3 else g_out
+        ctx.count('hand-modules')
+        ctx.nontriv(line)
+        if got != exp:
+            ctx.violation('hand-modules:ground-truth', line, g_out, 'expected chain ' + exp)
+    ctx.streams.append({'stream': 'hand-modules', 'cases': len(hm_lines)})
     # ---- syntax errors: a stray token planted on a generator-known line, after wide characters -------------
     syn_lines, syn_expect = [], []
     for src in srcs[: ctx.n(400, 8000)]:
